@@ -92,6 +92,45 @@ NEEDS = {
  "C17b-m2": "two assemblies in one process that give the same file name texts with different line breaks, the later one reporting a position in it: line/column computed from the stale line table",
  "C19b-m1": "--lst with an output whose stem ends in a letter of its extension (main.bin -> ma.lst, draw.raw -> d.lst)",
  "C19b-m2": "a program of ten or more compiled source files (linked and included, repeats counted): files 10.. have no section in the listing",
+ # ---- round 3 (two more per property, all 19 properties; aimed at the corners a strengthened harness would still not reach)
+ 'C01c-m1': "an inline-number instruction (emt/trap/sys/mark/spl/xfc) whose operand is a symbol defined further down, and a LATER instruction with the same mnemonic: the postponed encoding reads the later statement's number",
+ 'C01c-m2': "two sibling '.include's in one assembly with a few dozen operands each: a per-Compiler memo keyed by id(token) hands freed-and-reused ids of the first file's register tokens to the second file's symbols (allocator dependent)",
+ 'C02c-m1': 'a block (file, include, .repeat body) whose first statement is still pending (forward br, .word fwd, .blkb n) directly followed by a statement that yields a multi-part chunk (mov #fwd, r0; jmp fwd): the first part of the second chunk is dropped from the image',
+ 'C02c-m2': "utf-8 output charset, non-ASCII quoted text in '.ascii'/'.asciz', and an <expr> chunk naming a later symbol: size announced in characters",
+ 'C03c-m1': 'the same as C02c-m2 seen as an order dependence: moving \'cr = 15\' from above to below the \'.ascii "жу"<cr>\' changes a later label (utf-8 only)',
+ 'C03c-m2': "an UNUSED definition with an error-reporting operator (/ % <<) under a linear operator whose operand is defined above it but depends on something defined below: 'lim = z' / 'q = 100 / lim + 1' / 'z = 0' assembles, other orders fail",
+ 'C04c-m1': "a forward 'sob' whose target is a bare symbol defined by assignment ('fwd = lbl'): accepted and encoded as a fall-through",
+ 'C04c-m2': 'a branch or sob that itself stands at an ODD address (after .byte, odd .link): parity is checked on the target instead of the distance',
+ 'C05c-m1': 'a two-character literal whose second character encodes to a byte >= 0x80 (Cyrillic under bk) where sign or bits above 15 matter (.dword, /, %, >>): unpacked as a signed word',
+ 'C05c-m2': 'an alias of an address written before its label, used with a coefficient other than +1 as its first evaluation, in a statement emitted before the label, base unknown',
+ 'C06c-m1': "U+007F (raw or '\\x7f') in an otherwise ASCII string under the bk charset: the one ASCII character bk does not have is let through by an ASCII fast path",
+ 'C06c-m2': "'.repeat' of three or more copies whose body length depends on the start address (.even/.odd/.align inside): the address of copy i is start + i * (length of the previous copy)",
+ 'C07c-m1': 'a critical (parser) error in a file included by an INCLUDED file: printed, not latched, exit 0 and outputs written (two cooperating sites)',
+ 'C07c-m2': 'a make_xxx target that cannot be written for a reason other than missing directory / permission (it is a directory, the path runs through a file, name too long): internal error without an error diagnostic',
+ 'C08c-m1': "a first evaluation attempt of an unsized statement that ends in a recoverable error inside a swallowing context ('.repeat 2 { .blkb -1 }') followed by anything that calls not_ready ('.word nosuch'): try_compute.depth stays raised, NotReadyError escapes",
+ 'C08c-m2': 'graphical handler, a diagnostic with spans in two files, the other span on a line number beyond the length of the file named first: KeyError',
+ 'C09c-m1': "'.link SYM' with SYM defined further down, standing after an instruction that has a forward PC-relative operand: the displacement contains twice the base",
+ 'C09c-m2': "an included file whose FIRST statement is an '.include' (two-hop promise chain), '.link' first: absolute references to labels of the inner file lose the base",
+ 'C10c-m1': "'@%N' (legacy register deferred composed with the %N register spelling): falls through to relative deferred and fails",
+ 'C10c-m2': "an implicit word list of two or more words in which a word other than the first mentions '.': '.' means the address of each word instead of the statement",
+ 'C11c-m1': 'an exported name spelled in different letter case in two files (Counter:: / counter): the export table is no longer case-insensitive',
+ 'C11c-m2': 'the same private name in two linked files, both defined by forward reference, one file exporting a value linear in its own, the other combining that export with its own in one sum before either is forced: terms merged by name',
+ 'C12c-m1': "'. = X' after the base is set with a NEGATIVE target (image at the top of the address space, '. = -40'): refused as out of bounds",
+ 'C12c-m2': "a base directive inside '.repeat FLAG { }' with FLAG defined further down, in the last file: the block is compiled after the default base is settled",
+ 'C13c-m1': "make_wav / make_turbo_wav with an explicit output path that has an extension other than .wav and no tape name ('game.v2'): the inferred tape name loses the extension",
+ 'C13c-m2': 'the source named on the command line is a symbolic link: default and relative outputs (and includes) follow the link target instead of the name given',
+ 'C14c-m1': 'a string whose first unencodable character lies beyond the BMP (U+10000 and up): IndexError instead of an encoding error',
+ 'C14c-m2': "two assemblies in one process with the same refused character literal ('é): the second gets the memoised 0 without a report",
+ 'C15c-m1': "'.rad50 <expr>' whose expression depends on '.' inside a '.repeat': the code of the first copy is cached on the token (and the >= 40 check skipped)",
+ 'C15c-m2': "the same bad '.rad50' character in two assemblies of one process: a process-wide table learns it as a space",
+ 'C16c-m1': "two assemblies in one process including a '.once' file at the same resolved path: the counts are shared by all Compilers (same idea as C18-m2, found independently)",
+ 'C16c-m2': "a capitalised '.END' followed by text that does not parse: the parser no longer stops at it",
+ 'C17c-m1': "a diagnostic with spans in two linked files where the culprit's file name sorts after the other's: the spans are sorted by file name",
+ 'C17c-m2': 'a form feed, vertical tab, NEL, U+2028 or FS/GS/RS before the fault (str.splitlines breaks lines there, the assembler does not): line numbers off by one per such character',
+ 'C18c-m1': "a malformed radix number (^XG, ^B2) in the probe after an earlier parse in the process used the same prefix: the report's start position is the earlier number's",
+ 'C18c-m2': '--lst with two symbols of one file that have the same value, under different PYTHONHASHSEED: ties come out in set iteration order',
+ 'C19c-m1': "--lst with '-o NAME.EXT' where EXT is not bin/raw (prog.sav, PROG.BIN): the listing name loses the extension",
+ 'C19c-m2': 'two or more symbols with the same value in one section whose names order differently with the letter case folded (Zed/alpha, IOB/IO_BASE)',
 }
 
 
